@@ -45,6 +45,7 @@ type c11shape struct {
 	arm   int  // > 0: burst scripts for this shape; the number of answers that arm its listener(s)
 	refire bool // the same catch event fires three times and more
 	par   bool // two tasks can be pending at once: scripts also use "answer the second pending task"
+	genOnly bool // a generated shape: seeded scripts only
 	evs   []c11ev
 	build func(g *eng.Graph) map[string]int
 }
@@ -270,6 +271,16 @@ func c11cases(tier string) []c11case {
 	var cs []c11case
 	thorough := tier == "thorough"
 	for si, s := range c11shapes {
+		if s.genOnly {
+			nr := 3
+			if thorough {
+				nr = 40
+			}
+			for i := 0; i < nr; i++ {
+				cs = append(cs, c11case{shape: si, random: 6 + i%5, tag: "genrandom"})
+			}
+			continue
+		}
 		letters := c11letters(s)
 		// 1. every script up to a length (structured enumeration)
 		// quick: every script up to length 3 (length 4 for the smallest shape); thorough: one longer
